@@ -42,12 +42,17 @@ Section Rdm.
     mkRdms (pats s) (map (fun i => nth i (items s) ([], [])) sel) (pidx s)
            (map (fun i => nth i (ridx s) 0%Z) sel).
 
+  (* the values of a descriptor: column [Some c] of the tuples, or the 'index' descriptor ([None]) *)
+  Definition pkeys (col : option nat) (s : rdms) : list Z :=
+    match col with Some c => map (colv c) (pats s) | None => pidx s end.
+  Definition rkeys (col : option nat) (s : rdms) : list Z :=
+    match col with Some c => map (fun it => colv c (fst it)) (items s) | None => ridx s end.
   (* num_index / bool_index: positions whose descriptor value is among vals, in original order *)
-  Definition pos_in (col : nat) (vals : list Z) (tuples : list (list Z)) : list nat :=
-    positions (fun t => memZ (colv col t) vals) tuples.
+  Definition pos_in (vals : list Z) (keys : list Z) : list nat :=
+    positions (fun k => memZ k vals) keys.
   (* subsample: for each requested value, all positions carrying it, concatenated *)
-  Definition pos_each (col : nat) (vals : list Z) (tuples : list (list Z)) : list nat :=
-    concat (map (fun v => positions (fun t => Z.eqb (colv col t) v) tuples) vals).
+  Definition pos_each (vals : list Z) (keys : list Z) : list nat :=
+    concat (map (fun v => positions (fun k => Z.eqb k v) keys) vals).
   Definition sort_nat (l : list nat) : list nat := isort_by Z.of_nat l.
 
   (* np.argsort(kind='stable') of a descriptor column *)
@@ -84,10 +89,10 @@ Section Rdm.
     end.
 
   Inductive op :=
-  | OSubsetPat (col : nat) (vals : list Z)
-  | OSubsamplePat (col : nat) (vals : list Z)
-  | OSubset (col : nat) (vals : list Z)
-  | OSubsample (col : nat) (vals : list Z)
+  | OSubsetPat (col : option nat) (vals : list Z)
+  | OSubsamplePat (col : option nat) (vals : list Z)
+  | OSubset (col : option nat) (vals : list Z)
+  | OSubsample (col : option nat) (vals : list Z)
   | OGetItem (idx : list nat)
   | OReorder (perm : list nat)
   | OSortAlpha (col : nat) (re : bool)
@@ -102,10 +107,10 @@ Section Rdm.
      admissible ones; the real code raises or is documented as undefined there) *)
   Definition step (s : rdms) (o : op) : rdms :=
     match o with
-    | OSubsetPat col vals => sel_patterns false (pos_in col vals (pats s)) s
-    | OSubsamplePat col vals => sel_patterns true (sort_nat (pos_each col vals (pats s))) s
-    | OSubset col vals => sel_rdms (pos_in col vals (map fst (items s))) s
-    | OSubsample col vals => sel_rdms (pos_each col vals (map fst (items s))) s
+    | OSubsetPat col vals => sel_patterns false (pos_in vals (pkeys col s)) s
+    | OSubsamplePat col vals => sel_patterns true (sort_nat (pos_each vals (pkeys col s))) s
+    | OSubset col vals => sel_rdms (pos_in vals (rkeys col s)) s
+    | OSubsample col vals => sel_rdms (pos_each vals (rkeys col s)) s
     | OGetItem idx => if forallb (fun i => Nat.ltb i (length (items s))) idx then sel_rdms idx s else s
     | OReorder p => if is_perm_of_range (ncond s) p then sel_patterns false p s else s
     | OSortAlpha col re => reindex re (sel_patterns false (argsort_col col (pats s)) s)
